@@ -53,8 +53,8 @@ type WfObs struct {
 	NItems  int      `json:"nitems"`
 	EmuExec uint64   `json:"emu_exec"`
 	TimExec uint64   `json:"tim_exec"`
-	EmuWG   []uint32 `json:"emu_wg"` // s2,s3,s4
-	TimWG   []uint32 `json:"tim_wg"`
+	EmuS    []uint32 `json:"emu_s"` // s0..s23
+	TimS    []uint32 `json:"tim_s"`
 	Emu     []uint32 `json:"emu"` // 64 x (v0,v1,v2)
 	Tim     []uint32 `json:"tim"`
 }
@@ -73,6 +73,11 @@ type Case struct {
 	Filter Filter `json:"filter"`
 	Ver    int    `json:"ver"`  // code object version 3 or 5
 	Vgpr   int    `json:"vgpr"` // EnableVgprWorkItemID 0..2
+	// Sgpr: independent user/system SGPR enables, bit 0 private segment buffer,
+	// 1 dispatch ptr, 2 queue ptr, 3 kernarg segment ptr, 4 dispatch id,
+	// 5 flat scratch init, 6 private segment size, 7/8/9 grid work-group count
+	// X/Y/Z, 10/11/12 work-group ID X/Y/Z. Absent = kernarg ptr + the three IDs.
+	Sgpr *int `json:"sgpr,omitempty"`
 	Skip   int    `json:"skip"` // GridBuilder.Skip(n) before enumerating
 	Sample [][2]int `json:"sample,omitempty"` // (wg index, wf index) whose lanes go to Coq
 
@@ -126,11 +131,32 @@ func (f Filter) coq() string {
 	panic("bad filter kind")
 }
 
-func codeObject(ver, vgpr int) *insts.KernelCodeObject {
+// NSReg is the number of SGPR dwords observed per wavefront.
+const NSReg = 24
+
+// DefaultSgpr: kernarg segment pointer + work-group ID X, Y, Z.
+const DefaultSgpr = 1<<3 | 1<<10 | 1<<11 | 1<<12
+
+const (
+	packetAddr  = 0x100004000
+	kernargAddr = 0x201234500
+)
+
+func codeObject(ver, vgpr, sgpr int) *insts.KernelCodeObject {
 	co := &insts.KernelCodeObject{KernelCodeObjectMeta: &insts.KernelCodeObjectMeta{}}
 	co.Version = insts.CodeObjectVersion(ver)
-	co.EnableSgprKernargSegmentPtr = true
-	co.ComputePgmRsrc2 = (1 << 7) | (1 << 8) | (1 << 9) | uint32(vgpr)<<11
+	bit := func(k int) bool { return sgpr>>k&1 == 1 }
+	co.EnableSgprPrivateSegmentBuffer = bit(0)
+	co.EnableSgprDispatchPtr = bit(1)
+	co.EnableSgprQueuePtr = bit(2)
+	co.EnableSgprKernargSegmentPtr = bit(3)
+	co.EnableSgprDispatchID = bit(4)
+	co.EnableSgprFlatScratchInit = bit(5)
+	co.EnableSgprPrivateSegmentSize = bit(6)
+	co.EnableSgprGridWorkgroupCountX = bit(7)
+	co.EnableSgprGridWorkgroupCountY = bit(8)
+	co.EnableSgprGridWorkgroupCountZ = bit(9)
+	co.ComputePgmRsrc2 = uint32(sgpr>>10&7)<<7 | uint32(vgpr)<<11
 	co.KernelCodeEntryByteOffset = 256
 	return co
 }
@@ -145,7 +171,10 @@ func emuRegs(raw *kernels.Wavefront, o *WfObs) {
 	}
 	emu.VerifC08InitWfRegs(wf)
 	o.EmuExec = wf.EXEC()
-	o.EmuWG = []uint32{wf.SRegValue(2), wf.SRegValue(3), wf.SRegValue(4)}
+	o.EmuS = make([]uint32, NSReg)
+	for r := 0; r < NSReg; r++ {
+		o.EmuS[r] = wf.SRegValue(r)
+	}
 	o.Emu = make([]uint32, 0, 192)
 	for lane := 0; lane < 64; lane++ {
 		for r := 0; r < 3; r++ {
@@ -171,7 +200,7 @@ func newTimingRig() *timingRig {
 func (t *timingRig) regs(raw *kernels.Wavefront, simd int, o *WfObs) {
 	sentinel := insts.Uint32ToBytes(Unwritten)
 	const sOff, vOff = 64, 32
-	for r := 0; r < 8; r++ {
+	for r := 0; r < NSReg; r++ {
 		t.cu.SRegFile.Write(cu.RegisterAccess{Reg: insts.SReg(r), RegCount: 1, WaveOffset: sOff, Data: sentinel})
 	}
 	for lane := 0; lane < 64; lane++ {
@@ -189,8 +218,10 @@ func (t *timingRig) regs(raw *kernels.Wavefront, simd int, o *WfObs) {
 		f.Read(cu.RegisterAccess{Reg: reg, RegCount: 1, LaneID: lane, WaveOffset: off, Data: buf})
 		return insts.BytesToUint32(buf)
 	}
-	o.TimWG = []uint32{rd(t.cu.SRegFile, insts.SReg(2), 0, sOff), rd(t.cu.SRegFile, insts.SReg(3), 0, sOff),
-		rd(t.cu.SRegFile, insts.SReg(4), 0, sOff)}
+	o.TimS = make([]uint32, NSReg)
+	for r := 0; r < NSReg; r++ {
+		o.TimS[r] = rd(t.cu.SRegFile, insts.SReg(r), 0, sOff)
+	}
 	o.Tim = make([]uint32, 0, 192)
 	for lane := 0; lane < 64; lane++ {
 		for r := 0; r < 3; r++ {
@@ -211,11 +242,15 @@ func run(c *Case, rig *timingRig) {
 	pkt := &kernels.HsaKernelDispatchPacket{
 		WorkgroupSizeX: uint16(c.S[0]), WorkgroupSizeY: uint16(c.S[1]), WorkgroupSizeZ: uint16(c.S[2]),
 		GridSizeX: uint32(c.G[0]), GridSizeY: uint32(c.G[1]), GridSizeZ: uint32(c.G[2]),
-		KernelObject: 65536, KernargAddress: 0x1234500,
+		KernelObject: 65536, KernargAddress: kernargAddr,
 	}
-	co := codeObject(c.Ver, c.Vgpr)
+	if c.Sgpr == nil {
+		d := DefaultSgpr
+		c.Sgpr = &d
+	}
+	co := codeObject(c.Ver, c.Vgpr, *c.Sgpr)
 	b := kernels.NewGridBuilder()
-	b.SetKernel(kernels.KernelLaunchInfo{CodeObject: co, Packet: pkt, PacketAddr: 0x4000, WGFilter: c.Filter.fn(c)})
+	b.SetKernel(kernels.KernelLaunchInfo{CodeObject: co, Packet: pkt, PacketAddr: packetAddr, WGFilter: c.Filter.fn(c)})
 	c.NumWG = b.NumWG()
 	if c.Skip > 0 {
 		b.Skip(c.Skip)
@@ -252,6 +287,14 @@ func lanes(a []uint32) string {
 	return vh.CoqList(s)
 }
 
+func u32list(a []uint32) string {
+	s := make([]string, len(a))
+	for i, x := range a {
+		s[i] = fmt.Sprint(x)
+	}
+	return vh.CoqList(s)
+}
+
 // coq renders input + observation as a term of type VGrid.Grid.ccase (Z_scope).
 func (c *Case) coq() string {
 	var wgs []string
@@ -267,17 +310,16 @@ func (c *Case) coq() string {
 	for _, s := range c.Sample {
 		if s[0] < len(c.WGs) && s[1] < len(c.WGs[s[0]].Wfs) {
 			f := c.WGs[s[0]].Wfs[s[1]]
-			smp = append(smp, fmt.Sprintf("(%d%%nat, %d%%nat, (%d, %d, %d), (%d, %d, %d), %d, %d, %s, %s)", s[0], s[1],
-				f.EmuWG[0], f.EmuWG[1], f.EmuWG[2], f.TimWG[0], f.TimWG[1], f.TimWG[2], f.EmuExec, f.TimExec,
-				lanes(f.Emu), lanes(f.Tim)))
+			smp = append(smp, fmt.Sprintf("(%d%%nat, %d%%nat, %s, %s, %d, %d, %s, %s)", s[0], s[1],
+				u32list(f.EmuS), u32list(f.TimS), f.EmuExec, f.TimExec, lanes(f.Emu), lanes(f.Tim)))
 		}
 	}
 	crash := "false"
 	if c.Crash != "" {
 		crash = "true"
 	}
-	return fmt.Sprintf("mkCase (mkGeom %d %d %d %d %d %d) (%s) %d %d %d%%nat %d %s %s %s %s",
-		c.G[0], c.G[1], c.G[2], c.S[0], c.S[1], c.S[2], c.Filter.coq(), c.Ver, c.Vgpr, c.Skip,
+	return fmt.Sprintf("mkCase (mkGeom %d %d %d %d %d %d) (%s) %d %d %d %d%%nat %d %s %s %s %s",
+		c.G[0], c.G[1], c.G[2], c.S[0], c.S[1], c.S[2], c.Filter.coq(), c.Ver, c.Vgpr, *c.Sgpr, c.Skip,
 		c.NumWG, vh.CoqList(wgs), vh.CoqBool(c.NilStable), crash, vh.CoqList(smp))
 }
 
@@ -373,6 +415,13 @@ func gen(r *vh.Rng) *Case {
 	if c.G[0]*c.G[1]*c.G[2] > 3000 {
 		c.G = [3]int{c.S[0] + 1, c.S[1], 1}
 	}
+	if r.Intn(4) == 0 {
+		// more than one work-group in every dimension
+		for d := 0; d < 3; d++ {
+			c.S[d] = 1 + r.Intn(5)
+			c.G[d] = c.S[d] + 1 + r.Intn(2*c.S[d])
+		}
+	}
 	n := [3]int{}
 	for d := 0; d < 3; d++ {
 		n[d] = (c.G[d]-1)/c.S[d] + 1
@@ -383,6 +432,16 @@ func gen(r *vh.Rng) *Case {
 		c.Ver = 5
 	}
 	c.Vgpr = []int{2, 2, 2, 1, 0}[r.Intn(5)]
+	// SGPR enables: all 8 work-group-ID combinations; half of the cases with
+	// all other enables drawn independently as well
+	sg := 1<<3 | r.Intn(8)<<10
+	switch r.Pick(3, 4, 1) {
+	case 0:
+		sg = DefaultSgpr
+	case 1:
+		sg = r.Intn(1 << 13)
+	}
+	c.Sgpr = &sg
 	if r.Intn(6) == 0 {
 		c.Skip = r.Intn(n[0]*n[1]*n[2] + 2)
 	}
